@@ -856,3 +856,12 @@ Definition xobs_last (src : list bool) (ops : list xop) (probe : list Z) :=
   | [] => (None, observe (init src) probe)
   | we :: _ => (snd we, observe (fst we) probe)
   end.
+
+(* ------------------------------------------------------------------ extension: create_global_floating_params_dict
+   `self._global_paramset.get_floating_params_dict(floating_param_values=gflp_values)` *)
+Definition create_global_floating_params_dict (m : mapper) (vec : list Z) : dict :=
+  get_floating_params_dict (mp_gps m) vec.
+
+(* the dictionaries (as sorted finite maps) for several vectors on the world reached by a history *)
+Definition xobs_gfl (src : list bool) (ops : list xop) (vecs : list (list Z)) :=
+  map (fun vec => dsort (create_global_floating_params_dict (w_map (xrun (init src) ops)) vec)) vecs.
